@@ -73,33 +73,25 @@ func round(s *slip.Scope, f slip.Object, args slip.List, depth int) slip.Values 
 	switch tn := num.(type) {
 	case slip.Fixnum:
 		d := div.(slip.Fixnum)
-		q = tn / d
-		r = tn - q.(slip.Fixnum)*d
-		if r == slip.Fixnum(0) {
-			break
+		q, r = divideFixnums(tn, d)
+		// Compare the remainder to half the divisor using negative
+		// magnitudes since those can not overflow.
+		nr, nd := r.(slip.Fixnum), d
+		if 0 < nr {
+			nr = -nr
 		}
-		ns := tn < slip.Fixnum(0)
-		if ns {
-			tn = -tn
+		if 0 < nd {
+			nd = -nd
 		}
-		ds := d < slip.Fixnum(0)
-		if ds {
-			d = -d
-		}
-		q = tn / d
-		r = tn - q.(slip.Fixnum)*d
-		dif := r.(slip.Fixnum) * 2
-		if dif == d && q.(slip.Fixnum)%2 != 0 {
-			q = q.(slip.Fixnum) + 1
-			r = tn - q.(slip.Fixnum)*d
-		}
-		if ns {
-			r = -r.(slip.Fixnum)
-			if !ds {
-				q = -q.(slip.Fixnum)
+		if nr < nd-nr || (nr == nd-nr && q.(slip.Fixnum)%2 != 0) {
+			// More than half or half and odd so round away from zero.
+			if (r.(slip.Fixnum) < 0) == (d < 0) {
+				q = q.(slip.Fixnum) + 1
+				r = r.(slip.Fixnum) - d
+			} else {
+				q = q.(slip.Fixnum) - 1
+				r = r.(slip.Fixnum) + d
 			}
-		} else if ds {
-			q = -q.(slip.Fixnum)
 		}
 	case slip.SingleFloat:
 		q = tn / div.(slip.SingleFloat)
@@ -119,15 +111,19 @@ func round(s *slip.Scope, f slip.Object, args slip.List, depth int) slip.Values 
 			r = (*slip.LongFloat)(big.NewFloat(0.0))
 			break
 		}
+		var (
+			an big.Float
+			ad big.Float
+		)
 		zn := (*big.Float)(tn)
 		zd := (*big.Float)(div.(*slip.LongFloat))
 		ns := zn.Sign()
 		if ns < 0 {
-			zn = zn.Abs(zn)
+			zn = an.Abs(zn)
 		}
 		ds := zd.Sign()
 		if ds < 0 {
-			zd = zd.Abs(zd)
+			zd = ad.Abs(zd)
 		}
 		_ = zq.Quo(zn, zd)
 		var (
@@ -170,16 +166,18 @@ func round(s *slip.Scope, f slip.Object, args slip.List, depth int) slip.Values 
 			zp big.Int
 			zr big.Int
 			zq big.Int
+			an big.Int
+			ad big.Int
 		)
 		zn := (*big.Int)(tn)
 		zd := (*big.Int)(div.(*slip.Bignum))
 		ns := zn.Sign()
 		if ns < 0 {
-			zn = zn.Abs(zn)
+			zn = an.Abs(zn)
 		}
 		ds := zd.Sign()
 		if ds < 0 {
-			zd = zd.Abs(zd)
+			zd = ad.Abs(zd)
 		}
 		_, _ = zq.QuoRem(zn, zd, &zr)
 		_ = zp.Mul(&zq, zd)
@@ -216,16 +214,18 @@ func round(s *slip.Scope, f slip.Object, args slip.List, depth int) slip.Values 
 			zq big.Rat
 			bi big.Int
 			zb big.Rat
+			an big.Rat
+			ad big.Rat
 		)
 		zn := (*big.Rat)(tn)
 		zd := (*big.Rat)(div.(*slip.Ratio))
 		ns := zn.Sign()
 		if ns < 0 {
-			zn = zn.Abs(zn)
+			zn = an.Abs(zn)
 		}
 		ds := zd.Sign()
 		if ds < 0 {
-			zd = zd.Abs(zd)
+			zd = ad.Abs(zd)
 		}
 		_ = zq.Quo(zn, zd)
 		_ = bi.Quo(zq.Num(), zq.Denom())
